@@ -398,6 +398,11 @@ fn run_all(cases: Vec<Value>, limit_ms: u64, jobs: usize) {
         pool.kill();
         let (mut solo, alive) = pool.run(setup, sql);
         if !alive { pool.kill(); }
+        if alive && solo["outcome"] == "panic" && setup.starts_with("spill") {
+            let (nt, alive2) = pool.run("nolimit", sql);
+            if !alive2 { pool.kill(); }
+            solo["neutral"] = nt["outcome"].clone();
+        }
         if is_bad(&solo) {
             let out = solo["outcome"].as_str().unwrap_or("").to_string();
             solo["phase"] = json!(pool.localise(setup, sql, &out));
